@@ -12,6 +12,11 @@ CLAIMED = {
             "symbolic penalty scale: per path z3 (LRA) decides that every prefix score is the minimum over all "
             "admissible segmentations and that the final score is the cost of the returned changepoints",
             "4.C02"),
+    "C08": ("MovingWindow with a table change score of free reals and symbolic threshold scale: the score at t is "
+            "the term T(t-b,t,t+b) summed over columns (0 elsewhere), detections are one maximiser per maximal "
+            "qualifying run of score>threshold (each comparison implied by the path condition), and a product run "
+            "on the mirrored table shows the time-reversal symmetry; plus ChangeScore(L2Cost) on symbolic data",
+            "4.C08"),
 }
 PENDING = {}
 TITLES = {}
